@@ -115,7 +115,7 @@ CLAIMS.update({
     technique='Coq proof of the null filter + ' + CORR, ref='0.3 C06'),
  'C07': dict(
     text='Proof (Coq) + correspondence. Theorems: _merge_data yields exactly the pairs (child row, parent row) that agree on every join condition with non-null values -- the inner equi-join -- for all frames '
-         '(merge_is_inner_equijoin), and the rows the Spec joins are the same relation (spec_join_rows). Correspondence: pandas merge on generated keys (duplicates, NULLs, separator-ambiguous values, 1-3 conditions, '
+         '(merge_is_inner_equijoin); on frame rows that relation is the join condition of the generation rules (engine_join_is_spec_join, spec_join_rows); a joined row gives exactly the statement whose subject, predicate and graph come from the child row and whose object is the parent\'s subject term from the parent row (join_row_statement); a whole referencing rule yields exactly the statements of the matching pairs of the two preprocessed frames (join_rule_statements). Correspondence: pandas merge on generated keys (duplicates, NULLs, separator-ambiguous values, 1-3 conditions, '
          'self-joins with permuted conditions) against the Engine model and the Spec.',
     note='Known finding: self-join elimination (NULL / non-unique key), refuted witness in Findings/C07.v.', technique='Coq proof (inner equi-join) + ' + CORR, ref='0.3 C07'),
  'C08': dict(
